@@ -41,7 +41,7 @@ func (p *Prog) escapeTable() ([][2]string, token.Pos, string) {
 			for _, sp := range gd.Specs {
 				vs := sp.(*ast.ValueSpec)
 				for i, nm := range vs.Names {
-					if nm.Name != "escapechars" || i >= len(vs.Values) {
+					if nm.Name != p.escapeTableVar() || i >= len(vs.Values) {
 						continue
 					}
 					// strings.NewReplacer(...)
@@ -193,7 +193,7 @@ func ruleTableEscape(p *Prog, r *Report) {
 		}
 	}
 	fn := p.Fn("mxj.escapeChars")
-	g := p.Globals["mxj.escapechars"]
+	g := p.Globals["mxj."+p.escapeTableVar()]
 	if fn == nil || (g == nil && kind != "switchfn") {
 		r.Anchor(rule, "mxj.escapeChars")
 		return
@@ -1385,4 +1385,47 @@ func isRangeIndex(v ssa.Value) bool {
 		}
 	}
 	return start == 1
+}
+
+// escapeTableVar: the name of the package variable holding the escape table — `escapechars`, or, where that name is gone, the
+// one package variable of the core package that the escaping function (or a helper it calls) reads and nothing but its
+// initialiser writes.
+func (p *Prog) escapeTableVar() string {
+	if v, ok := p.facts["esctabvar"]; ok {
+		return v.(string)
+	}
+	name := "escapechars"
+	p.facts["esctabvar"] = name
+	if p.Globals["mxj.escapechars"] != nil {
+		return name
+	}
+	fn := p.Fn("mxj.escapeChars")
+	if fn == nil {
+		return name
+	}
+	cands := map[string]bool{}
+	scan := func(f *ssa.Function) {
+		eachInstr(f, func(b *ssa.BasicBlock, in ssa.Instruction) {
+			if u, ok := in.(*ssa.UnOp); ok {
+				if g := globalOf(u); g != nil && g.Pkg == fn.Pkg && p.stableGlobal(g) && !isBoolType(derefType(g.Type())) {
+					cands[g.Name()] = true
+				}
+			}
+		})
+	}
+	scan(fn)
+	eachInstr(fn, func(b *ssa.BasicBlock, in ssa.Instruction) {
+		if c, ok := in.(ssa.CallInstruction); ok {
+			if h := staticCallee(c.Common()); h != nil && p.InModule(h) && !p.Exported(h) && len(h.Blocks) > 0 {
+				scan(h)
+			}
+		}
+	})
+	if len(cands) == 1 {
+		for n := range cands {
+			name = n
+		}
+	}
+	p.facts["esctabvar"] = name
+	return name
 }
